@@ -29,7 +29,50 @@ def cls_name(rt):
     return "code" if rt == "code" else "implicit" if rt in ("id_token", "id_token token") else "hybrid"
 
 
+RP_PERTS = ["none", "iss+/", "iss-1", "iss-substring", "iss-upper", "iss-missing", "aud-other", "aud-list-other", "aud-near", "nonce-other", "nonce-missing", "nonce-empty",
+            "nonce-none-expected", "expired", "expired-within-leeway", "other-key", "at_hash-wrong"]
+
+
+def rp_cases():
+    """the relying-party validation as the Flask / Django / Starlette clients run it (parse_id_token)"""
+    return [{"op": "rp_integration", "fw": fw, "pert": p} for fw in ("flask", "django", "starlette") for p in RP_PERTS]
+
+
+def impl_rp(c):
+    import rpclient as rc
+    ms.install_clock(); CLOCK.now = 1_000_000
+    now = int(CLOCK())
+    X = rc.ISSUER
+    claims = {"iss": X, "sub": "u", "aud": "cid", "exp": now + 600, "iat": now, "nonce": "n", "at_hash": hh("HS256", "at")}
+    p = c["pert"]
+    key, nonce, leeway = None, "n", None
+    if p == "iss+/": claims["iss"] = X + "/"
+    elif p == "iss-1": claims["iss"] = X[:-1]
+    elif p == "iss-substring": claims["iss"] = X[8:]
+    elif p == "iss-upper": claims["iss"] = X.upper()
+    elif p == "iss-missing": claims.pop("iss")
+    elif p == "aud-other": claims["aud"] = "other"
+    elif p == "aud-list-other": claims["aud"] = ["other"]
+    elif p == "aud-near": claims["aud"] = "cid2"
+    elif p == "nonce-other": claims["nonce"] = "m"
+    elif p == "nonce-missing": claims.pop("nonce")
+    elif p == "nonce-empty": claims["nonce"] = ""
+    elif p == "nonce-none-expected": nonce = None
+    elif p == "expired": claims["exp"] = now - 200
+    elif p == "expired-within-leeway": claims["exp"] = now - 30; leeway = 60
+    elif p == "other-key": key = rc.keys()[1]
+    elif p == "at_hash-wrong": claims["at_hash"] = hh("HS256", "zz")
+    token = {"access_token": "at", "token_type": "bearer"}
+    if p != "no-id-token":
+        token["id_token"] = rc.id_token(claims, key)
+    return rc.parse(c["fw"], token, nonce, leeway)
+
+
 def cases(rng, tier):
+    return _cases(rng, tier) + rp_cases()
+
+
+def _cases(rng, tier):
     out = []
     perts = ["none", "nonce", "access_token", "code", "client", "issuer", "key", "nonce-missing", "no-at", "no-code"]
     offs = [(-10, 0), (3599, 0), (3600, 0), (3601, 0), (3650, 60), (3660, 60), (3661, 60), (3600.25, 0), (-61, 60), (-59, 60)]
@@ -135,6 +178,8 @@ def issue(rt, alg, nonce="n-0S6_WzA2Mj"):
 
 
 def impl(c):
+    if c["op"] == "rp_integration":
+        return impl_rp(c)
     ms.install_clock()
     CLOCK.now = 1_000_000
     op = c["op"]
@@ -223,6 +268,8 @@ def enc(v):
 
 def model_line(c):
     op = c["op"]
+    if op == "rp_integration":
+        return None
     if op == "half_hash":
         return {"op": op, "alg": c["alg"], "s": c["s"].encode().hex()}
     if op == "generate":
@@ -270,6 +317,17 @@ def oracle(c, out):
     op = c["op"]
     def bad(what, **sig):
         v.append((what, dict(sig, op=op)))
+    if op == "rp_integration":
+        if "raised" in out:
+            bad(f"{c['fw']} client parse_id_token raised {out['raised']}", kind="crash", exc=out["raised"].split(":")[0]); return v
+        want = c["pert"] in ("none", "expired-within-leeway", "nonce-none-expected")
+        if c["pert"] == "no-id-token":
+            want = False        # nothing to accept: parse_id_token returns None
+        if out["accepted"] and not want:
+            bad(f"the {c['fw']} client's relying-party validation accepts the ID Token although {c['pert']}", kind="rp-accepts", pert=c["pert"].split("-")[0].split("+")[0], fw=c["fw"])
+        if not out["accepted"] and want:
+            bad(f"the {c['fw']} client's relying-party validation refuses a conforming ID Token ({c['pert']}: {out.get('error')})", kind="rp-refuses", pert=c["pert"], fw=c["fw"])
+        return v
     if op == "half_hash":
         if c["alg"] in ALGS:
             if out["out"] is None or bytes.fromhex(out["out"]).decode() != ref_half(c["alg"], c["s"]):
@@ -326,6 +384,8 @@ def oracle(c, out):
 
 
 def classify(c, out):
+    if c["op"] == "rp_integration":
+        return f"rp_integration/{c['fw']}/" + ("accepted" if out.get("accepted") else "refused")
     if c["op"] == "e2e":
         return f"e2e/{c['rt']}/{c['pert']}/" + ("ok" if "ok" in out else out.get("err", out.get("provider_error", "raised")))
     return c["op"]
